@@ -14,7 +14,7 @@ def key(mid):
 
 
 def main():
-    rows, caught, total = [], 0, 0
+    rows, caught, total, obsolete = [], 0, 0, 0
     for p in sorted(glob.glob(os.path.join(VERIF, "seeded", "*", "meta.json")), key=lambda p: key(os.path.basename(os.path.dirname(p)))):
         d = json.load(open(p))
         mid = d["id"]
@@ -23,6 +23,10 @@ def main():
         what = what[:200].rsplit(" ", 1)[0] + " ..." if len(what) > 200 else what
         checks = d["result"]["checks"]
         by = [c for c, r in checks.items() if r["verdict"] == "caught"]
+        if d.get("obsolete"):
+            obsolete += 1
+            rows.append(f"| `{mid}` | {what} | *obsolete*: no longer breaks the property on the repaired tree (was caught) |  |")
+            continue
         total += 1
         if by:
             caught += 1
@@ -40,7 +44,7 @@ def main():
         i1 += 1
     lines[i0 + 2:i1] = rows
     open(path, "w").write("\n".join(lines))
-    print(f"{caught}/{total} caught; table rows {len(rows)}")
+    print(f"{caught}/{total} caught; {obsolete} obsolete; table rows {len(rows)}")
 
 
 if __name__ == "__main__":
